@@ -262,15 +262,20 @@ def main(argv=None):
             errors.append((r["label"], r["error"]))
         bcov.append({k: r.get(k) for k in ("label", "bound", "cases", "distinct", "wall_s", "sample")})
         seen_b = set()
+        reported = {}
         for v in r.get("violations", []):
             vid = f"{prop}/bounded:{r['label']}/{v['id']}"
-            if (vid, v.get("witness")) in seen_b or sum(1 for x in seen_b if x[0] == vid) >= 3:
+            if (vid, v.get("witness")) in seen_b:
                 continue
             seen_b.add((vid, v.get("witness")))
             f = finding_for(findings, prop, vid, v.get("witness"))
             if f is not None:
                 if (vid, f) not in known:
                     known.append((vid, f))
+                continue
+            # listed findings never use up the reporting budget of unlisted violations
+            reported[vid] = reported.get(vid, 0) + 1
+            if reported[vid] > 5:
                 continue
             d = os.path.join(VERIF, "replays", prop)
             os.makedirs(d, exist_ok=True)
